@@ -113,6 +113,51 @@ def exact_mask(mode, shape_t, deriv_dims, interior_only_smoothing=True, second=N
     return m
 
 
+def ref_fd(t, ax, mode, h):
+    """independent reference of the documented schemes along tensor axis ax (replicate padding; one-sided ends)"""
+    n = t.shape[ax]
+    i = torch.arange(n)
+    nx, pv = (i + 1).clamp(max=n - 1), (i - 1).clamp(min=0)
+    T = lambda idx: t.index_select(ax, idx)
+    if mode == "forward":
+        return (T(nx) - t) / h
+    if mode == "backward":
+        return (t - T(pv)) / h
+    if mode == "central":
+        return (T(nx) - T(pv)) / (2 * h)
+    den = torch.full((n,), 2.0 * h, dtype=t.dtype)
+    den[0] = h
+    den[-1] = h
+    shp = [1] * t.ndim
+    shp[ax] = n
+    return (T(nx) - T(pv)) / den.reshape(shp)
+
+
+def ref_avg(t, ax, k):
+    n = t.shape[ax]
+    z = torch.zeros_like(t.narrow(ax, 0, 1))
+    p = torch.cat([z, t, z], ax)
+    return k[0] * p.narrow(ax, 0, n) + k[1] * p.narrow(ax, 1, n) + k[2] * p.narrow(ax, 2, n)
+
+
+def ref_deriv(t, code, mode, sp):
+    """t: tensor of spatial shape (.., Y, X); documented operator: prewitt = [1,1,1]/3, sobel = [1,2,1]/4 smoothing of the
+    other axes (zero padded, as implemented), then forward_central_backward differences"""
+    D = t.ndim
+    cur = t
+    for letter in sorted(code):
+        sd = "xyz".index(letter)
+        if mode in ("prewitt", "sobel"):
+            k = [1 / 3, 1 / 3, 1 / 3] if mode == "prewitt" else [0.25, 0.5, 0.25]
+            for d in range(D):
+                if d != sd:
+                    cur = ref_avg(cur, D - 1 - d, k)
+            cur = ref_fd(cur, D - 1 - sd, "forward_central_backward", sp[sd])
+        else:
+            cur = ref_fd(cur, D - 1 - sd, mode, sp[sd])
+    return cur
+
+
 def interior2_mask(shape_t, margin=2):
     m = torch.zeros(shape_t, dtype=torch.bool)
     sl = tuple(slice(margin, n - margin) for n in shape_t)
@@ -237,7 +282,7 @@ def oracle(p):
                 for kk, val in got.items():
                     if float((val - full[kk]).abs().max()) > 0:
                         fail(f"C12:flow_derivatives:{mode}:subset-differs", f"{desc}: {kk} requested within {sub + [short]} differs from the value when "
-                             f"all derivatives are requested", case=desc, which=sub + [short], key=kk)
+                             f"all derivatives are requested", case=desc, which=sub + [short], dkey=kk)
                         break
             for c_ in chans:
                 for a, b_ in itertools.combinations(letters, 2):
@@ -274,12 +319,32 @@ def oracle(p):
                     e = float((r[key][b, 0] - want).abs()[M2].max())
                     if e > 1e-8 * (1 + abs(want)):
                         fail(f"C12:spatial_derivatives:{mode}:second-derivative-of-quadratic",
-                             f"{desc}: d2/d{key} of a quadratic is off by {e:.3g} in the interior (expected {want})", case=desc, key=key)
+                             f"{desc}: d2/d{key} of a quadratic is off by {e:.3g} in the interior (expected {want})", case=desc, dkey=key)
                         raise StopIteration
         except StopIteration:
             pass
         except Exception as e:  # noqa
             fail(f"C12:quadratic:{mode}:D{D}:raises", f"{desc}: {type(e).__name__}: {str(e)[:140]}", case=desc)
+
+        # --- random (non-polynomial) data against an independent implementation of the documented operators
+        bump(f"reference:{mode}:D{D}")
+        try:
+            fld = torch.tensor([dy(rng, 3) for _ in range(N * math.prod(shape_t))], dtype=torch.float64).reshape((N, 1) + shape_t)
+            keys = list(letters) + [a + b_ for a in letters for b_ in letters]
+            which = rng.sample(keys, 3)
+            r = spatial_derivatives(fld, which=which, mode=mode, spacing=spacing)
+            for key in which:
+                for b in range(N):
+                    want = ref_deriv(fld[b, 0], key, mode, spv[b])
+                    e = float((r[key][b, 0] - want).abs().max())
+                    if e > 1e-9 * (1 + float(want.abs().max())):
+                        fail(f"C12:spatial_derivatives:{mode}:reference-operator",
+                             f"{desc}: derivative {key} of random data differs from the documented operator by {e:.3g}", case=desc, dkey=key)
+                        raise StopIteration
+        except StopIteration:
+            pass
+        except Exception as e:  # noqa
+            fail(f"C12:reference:{mode}:D{D}:raises", f"{desc}: {type(e).__name__}: {str(e)[:140]}", case=desc)
 
     # default spacing of flow_derivatives: the normalised cube
     for D in (2, 3):
